@@ -581,6 +581,36 @@ func c17Placeholders(res *PureResult, add func(string)) {
 	}
 	os.Unsetenv("A")
 	os.Unsetenv("B")
+	// variable NAMES: whatever stands between "${" and the next "}" is the name (container runtimes set names a
+	// POSIX shell cannot export: dots, dashes, non-ASCII letters, a leading digit)
+	for _, vn := range []string{"A", "x_1", "couchbase.username", "DCP-PASSWORD", "1X", "ÜSER", "a b", "A:B", "$A"} {
+		for _, set := range []bool{false, true} {
+			for _, lay := range []string{"${" + vn + "}", "p${" + vn + "}q${" + vn + "}"} {
+				os.Unsetenv(vn)
+				want := lay
+				if set {
+					os.Setenv(vn, "val")
+					want = strings.ReplaceAll(lay, "${"+vn+"}", "val")
+				}
+				file := filepath.Join(dir, "n.yml")
+				yml := fmt.Sprintf("hosts:\n  - \"%s\"\nusername: \"%s\"\nbucketName: \"%s\"\n", lay, lay, lay)
+				_ = os.WriteFile(file, []byte(yml), 0o644)
+				c, err := dcp.VerifNewDcpConfig(file)
+				os.Unsetenv(vn)
+				res.Evaluations++
+				res.Distinct++
+				if err != nil {
+					add(fmt.Sprintf("config with %q (variable set=%v) failed to load: %v", lay, set, err))
+					continue
+				}
+				for name, got := range map[string]string{"hosts[0]": c.Hosts[0], "username": c.Username, "bucketName": c.BucketName} {
+					if got != want {
+						add(fmt.Sprintf("placeholder %q, variable named %q set=%v: %s = %q, want %q", lay, vn, set, name, got, want))
+					}
+				}
+			}
+		}
+	}
 }
 
 func init() {
